@@ -51,6 +51,53 @@ fn full_image_loads(img: &[u8]) {
     core::mem::forget(r);
 }
 
+//@ c09_foreign_version {"desc":"an image whose header carries the product name but another version suffix (what an older or newer release writes) is rejected without panicking","bounds":"header = 'VibratoTokenizer ' + 4 symbolic bytes different from '0.5\\n', followed by the valid body of the 359-byte image","symbolic":"the 4 version bytes of the header","functions":["Dictionary::read","Dictionary::read_common"],"fs":5000,"unwind":24,"unwindset":["memcmp:24"],"timeout":900,"stubs":["alloc::fmt::format"]}
+#[cfg(kani)]
+#[kani::proof]
+#[kani::stub(alloc::fmt::format, crate::c06::stub_format)]
+#[kani::stub(unty::type_equal, crate::csvstub::stub_type_equal)]
+fn c09_foreign_version() {
+    const MAGIC: &[u8] = b"VibratoTokenizer 0.5\n";
+    let mut img = gen::IMG_MATRIX;
+    let mut same = true;
+    for i in 17..21 {
+        let b: u8 = kani::any();
+        img[i] = b;
+        if b != MAGIC[i] {
+            same = false;
+        }
+    }
+    kani::assume(!same);
+    let r = Dictionary::read(CutReader::new(&img, img.len()));
+    assert!(r.is_err(), "an image of another version was loaded");
+    kani::cover!(img[19] == b'4' && img[20] == b'\n');
+    kani::cover!(img[20] >= 0x80);
+    core::mem::forget(r);
+}
+
+//@ c09_foreign_terminator {"desc":"an image whose header differs from the magic only in its last byte (the line terminator) is rejected without panicking","bounds":"header = 'VibratoTokenizer 0.5' + 1 symbolic byte different from '\\n', followed by the valid body of the 359-byte image","symbolic":"the last header byte","functions":["Dictionary::read","Dictionary::read_common"],"fs":5000,"unwind":24,"unwindset":["memcmp:24"],"timeout":900,"stubs":["alloc::fmt::format"]}
+#[cfg(kani)]
+#[kani::proof]
+#[kani::stub(alloc::fmt::format, crate::c06::stub_format)]
+#[kani::stub(unty::type_equal, crate::csvstub::stub_type_equal)]
+fn c09_foreign_terminator() {
+    const MAGIC: &[u8] = b"VibratoTokenizer 0.5\n";
+    let mut img = gen::IMG_MATRIX;
+    let mut same = true;
+    for i in 20..21 {
+        let b: u8 = kani::any();
+        img[i] = b;
+        if b != MAGIC[i] {
+            same = false;
+        }
+    }
+    kani::assume(!same);
+    let r = Dictionary::read(CutReader::new(&img, img.len()));
+    assert!(r.is_err(), "an image of another version was loaded");
+    kani::cover!(img[20] >= 0x80);
+    core::mem::forget(r);
+}
+
 // (not registered: one symbolic cut point over the whole image forks at every read; 90 min of path exploration gave no verdict - replaced by the 16-byte window harnesses) c09_matrix_all_prefixes {"tier":"thorough","core":false,"desc":"every strict prefix of a matrix-connector dictionary image is rejected with an error, no panic","bounds":"359-byte image (2 words, 2x2 matrix, 3-entry char table, 2 unk entries); truncation point 0..358","symbolic":"the truncation point","functions":["Dictionary::read","Dictionary::read_common","bincode::decode_from_std_read","Trie::decode","DictionaryInner::decode"],"fs":5000,"unwind":24,"unwindset":["memcmp:24"],"timeout":5400,"mem_gb":28,"cbmc_args":["--paths","lifo"],"stubs":["alloc::fmt::format"]}
 #[cfg(kani)]
 #[kani::proof]
